@@ -149,6 +149,16 @@ Theorem C10_s3_id_parse_refuted :
 Proof. exact legacy_s3_id_parse_broken. Qed.
 Print Assumptions C10_s3_id_parse_refuted.
 
+(** observation: limit = 0 is "no limit" on the in-memory (and file) cassette, "nothing" on S3; the listing
+    theorems above are stated for limit None or >= 1 (the S3 one for every limit) *)
+Theorem C10_limit_zero_observation :
+  mem_iter glob_simple (fun l => l) (store_of mem_id ex_hist) (U"Op") [] (Some 0) false
+    = Listed [U"Op/a1"; U"Op/f6"; U"Op/07"] /\
+  s3_iter glob_simple ex_fmt same (fun l => l) (fun n => n) [] (store_of (s3_key ex_fmt []) ex_hist)
+          (U"Op") None None 0%Z [] (Some 0) false = Listed [].
+Proof. exact limit_zero_diverges. Qed.
+Print Assumptions C10_limit_zero_observation.
+
 (** non-vacuity: a history over the categories Op, OpX, Op_Y, O, Op_ with a re-save and every flag value meets
     every hypothesis above (with a concrete injective, '/'-free [ex_fmt]), and the models list what one expects *)
 Example C10_nonvacuous :
